@@ -867,3 +867,122 @@ func TestRemoveAndPutBackAcrossChildren(t *testing.T) {
 		ev.Case(fmt.Sprint(log), putBacks >= 1, "remove-and-put-back-across-children")
 	})
 }
+
+// TestFirstTouchOfDiscardedChild: the parent holds, still pending, nodes that an insert made by SPLITTING a longer extension
+// (so their paths are slices of one key buffer); children whose very first operation works on such a node (their node
+// cache is cold, they receive the parent's own objects) are discarded. The parent's root, pending changes and deletes are
+// the same afterwards, and its saved state reads the model.
+func TestFirstTouchOfDiscardedChild(t *testing.T) {
+	ev.Rapid(t, 1500, 12000)
+	rapid.Check(t, func(rt *rapid.T) {
+		base := util.NewMemoryNodeDB()
+		version := int64(gen.Pick(rt, []int{0, 1, 2}, "version"))
+		nb := gen.Pick(rt, []int{3, 4, 6}, "stembytes")
+		stem := mptkit.GenFixedPath(rt, nb, "stem")
+		// genesis: two or three keys that differ from the stem at one late position (a long common extension over a branch)
+		model := map[string][]byte{}
+		var log []string
+		var gops []mptkit.Op
+		late := gen.Uniform(rt, len(stem)-3, len(stem)-1, "late")
+		twin := func(pos int, label string) string {
+			nib := "0123456789abcdef"[gen.Uniform(rt, 0, 15, label)]
+			if nib == stem[pos] {
+				nib = "123456789abcdef0"[strings.IndexByte("0123456789abcdef", nib)]
+			}
+			return stem[:pos] + string(nib) + stem[pos+1:]
+		}
+		for i := gen.Uniform(rt, 1, 2, "ntwins"); i > 0; i-- {
+			k := twin(late, "gt")
+			v := mptkit.GenValue(rt, "gv")
+			gops = append(gops, mptkit.Op{Kind: "ins", Path: k, Val: fmt.Sprintf("%x", v)})
+			model[k] = v
+		}
+		v := mptkit.GenValue(rt, "gv")
+		gops = append(gops, mptkit.Op{Kind: "ins", Path: stem, Val: fmt.Sprintf("%x", v)})
+		model[stem] = v
+		g := mptkit.NewTrie(base, version, nil)
+		if err := mptkit.Apply(g, gops); err != nil {
+			rt.Fatalf("HARNESS: genesis %v: %v", gops, err)
+		}
+		log = append(log, fmt.Sprintf("genesis: %v", gops))
+		if gen.Chance(rt, 60, "newversion") {
+			version++
+		}
+		sc := statecache.NewStateCache()
+		bc := statecache.NewBlockCache(sc, statecache.Block{Round: version, Hash: "block", PrevHash: "prev"})
+		block := &trie{name: "block"}
+		block.mpt = util.NewMerklePatriciaTrie(util.NewLevelNodeDB(util.NewMemoryNodeDB(), base, false), util.Sequence(version), g.GetRoot(), statecache.NewTransactionCache(bc))
+		child := func() *util.MerklePatriciaTrie {
+			return util.NewMerklePatriciaTrie(util.NewLevelNodeDB(util.NewMemoryNodeDB(), block.mpt.GetNodeDB(), false), block.mpt.GetVersion(), block.mpt.GetRoot(), statecache.NewTransactionCache(bc))
+		}
+		// the splitting insert: a key that leaves the stem early; made by the block state itself or by a merged child
+		early := gen.Uniform(rt, 0, late-2, "early")
+		K := twin(early, "kt")
+		if gen.Chance(rt, 80, "othertail") {
+			// the rest of the key differs from the stem as well (a twin would be overwritten with its own nibbles)
+			tail := []byte(K[early+1:])
+			for i := range tail {
+				tail[i] = "0123456789abcdef"[gen.Uniform(rt, 0, 15, "tailnib")]
+			}
+			K = K[:early+1] + string(tail)
+		}
+		kv := mptkit.GenValue(rt, "kv")
+		direct := gen.Chance(rt, 50, "direct")
+		ins := block.mpt
+		if !direct {
+			ins = child()
+		}
+		if _, err := mptkit.InsertReused(ins, K, kv); err != nil {
+			rt.Fatalf("insert %q: %v\n%v", K, err, log)
+		}
+		model[K] = kv
+		if !direct {
+			if gen.Chance(rt, 50, "commitcache") {
+				ins.Cache().Commit()
+			}
+			if err := block.mpt.MergeMPTChanges(ins); err != nil {
+				rt.Fatalf("merge of the inserting child: %v\n%v", err, log)
+			}
+		}
+		log = append(log, fmt.Sprintf("insert %q (direct: %v)", K, direct))
+		before := snapshot(block)
+		firstDeletes := 0
+		for ci := gen.Uniform(rt, 1, 3, "nchildren"); ci > 0; ci-- {
+			c := child()
+			cm := mptkit.CopyContent(model)
+			var used []string
+			for k := range cm {
+				used = append(used, k)
+			}
+			sort.Strings(used)
+			if gen.Chance(rt, 70, "firstdel") {
+				if _, err := c.Delete(util.Path(K)); err != nil {
+					rt.Fatalf("discarded child: delete %q: %v\n%v", K, err, log)
+				}
+				delete(cm, K)
+				firstDeletes++
+				log = append(log, fmt.Sprintf("discarded child: first operation del(%q)", K))
+			}
+			ops := mptkit.GenOpsP(rt, cm, &used, gen.Uniform(rt, 0, 3, "nmore"), nb, 50, fmt.Sprintf("more%d", ci))
+			if err := mptkit.Apply(c, ops); err != nil {
+				rt.Fatalf("HARNESS: %v", err)
+			}
+			log = append(log, fmt.Sprintf("discarded child: %v", ops))
+			if got, err := mptkit.Content(c); err != nil || !mptkit.EqualContent(got, cm) {
+				rt.Fatalf("discarded child reads %s (%v), its model %s\n%v", mptkit.Show(got), err, mptkit.Show(cm), log)
+			}
+			if after := snapshot(block); after != before {
+				rt.Fatalf("a child that was never merged changed the parent's root or pending changes:%s\n%v", diff(before, after), log)
+			}
+		}
+		// the parent's pending changes are saved: the store alone reads the model at the parent's root
+		if err := block.mpt.SaveChanges(context.Background(), base, false); err != nil {
+			rt.Fatalf("SaveChanges: %v\n%v", err, log)
+		}
+		got, err := mptkit.Content(mptkit.NewTrie(base, version, block.mpt.GetRoot()))
+		if err != nil || !mptkit.EqualContent(got, model) {
+			rt.Fatalf("after saving the parent's changes the store reads %s (%v), the model is %s\n%v", mptkit.Show(got), err, mptkit.Show(model), log)
+		}
+		ev.Case(fmt.Sprint(log), firstDeletes >= 1, "first-touch-of-discarded-child", fmt.Sprintf("split-insert-direct:%v", direct))
+	})
+}
